@@ -41,7 +41,8 @@ Definition map_coordinate (mode len : Z) (x : Q) : option Q :=
       if len <=? 1 then Some 0%Q
       else let sz2 := 2 * len in
            let i := (if qltb x (- zq sz2) then zq sz2 * zq (qtrunc (- x / zq sz2)) + x else x)%Q in
-           Some (if qltb i (- zq len) then i + zq sz2 else - i - 1)%Q
+           let r := (if qltb i (- zq len) then i + zq sz2 else - i - 1)%Q in
+           Some (if qltb (- (1)) r then r else 0)%Q   (* a multiple of the period lands on -1, which mirrors 0 *)
     else if mode =? ExtendWrap then
       if len <=? 1 then Some 0%Q
       else let sz := len - 1 in Some (x + zq sz * (zq (qtrunc (- x / zq sz)) + 1))%Q
